@@ -72,23 +72,54 @@ func c17StuckOnLocks() (bool, string) {
 	return stuck >= 2, strings.Join(where, " <-> ")
 }
 
-func c17WaitAll(done []chan struct{}, what string) error {
-	deadline := time.After(8 * time.Second)
-	for _, d := range done {
-		select {
-		case <-d:
-		case <-deadline:
-			// patience is over: the verdict comes from the goroutine dump, twice, one second apart
+// c17WaitAll waits for all operations. A deadlock is declared only if nothing made progress for 10 s (finished
+// operations and the optional progress counter both unchanged) AND two goroutine dumps one second apart show
+// the same operation goroutines parked in mutex acquisition. Slow-but-moving runs are waited for (up to 10 min,
+// then reported as inconclusive), so a loaded machine cannot produce a deadlock verdict.
+func c17WaitAll(done []chan struct{}, what string, progress *int64) error {
+	finished := func() int {
+		n := 0
+		for _, d := range done {
+			select {
+			case <-d:
+				n++
+			default:
+			}
+		}
+		return n
+	}
+	start := time.Now()
+	lastChange := time.Now()
+	lastFin, lastProg := -1, int64(-1)
+	for {
+		fin := finished()
+		if fin == len(done) {
+			return nil
+		}
+		var prog int64
+		if progress != nil {
+			prog = atomic.LoadInt64(progress)
+		}
+		if fin != lastFin || prog != lastProg {
+			lastFin, lastProg, lastChange = fin, prog, time.Now()
+		}
+		if time.Since(lastChange) > 10*time.Second {
 			s1, w1 := c17StuckOnLocks()
 			time.Sleep(time.Second)
 			s2, w2 := c17StuckOnLocks()
-			if s1 && s2 && w1 == w2 {
-				return vk.ViolateSig("deadlock", "%s: bookkeeping operations block each other for ever (lock cycle): %s", what, w1)
+			var prog2 int64
+			if progress != nil {
+				prog2 = atomic.LoadInt64(progress)
 			}
-			return fmt.Errorf("harness: operations did not finish in time but no stable lock cycle is visible (inconclusive)")
+			if s1 && s2 && w1 == w2 && finished() == fin && prog2 == prog {
+				return vk.ViolateSig("deadlock", "%s: bookkeeping operations block each other for ever (lock cycle, no progress for %v): %s", what, time.Since(lastChange).Round(time.Second), w1)
+			}
 		}
+		if time.Since(start) > 10*time.Minute {
+			return fmt.Errorf("harness: operations did not finish within 10 minutes but no stable lock cycle is visible (inconclusive)")
+		}
+		time.Sleep(50 * time.Millisecond)
 	}
-	return nil
 }
 
 func c17LockRun(sc c17Lock) (vk.Result, error) {
@@ -132,7 +163,7 @@ func c17LockRun(sc c17Lock) (vk.Result, error) {
 	// let the others reach whatever they block on, then let the parked collection continue
 	time.Sleep(20 * time.Millisecond)
 	h.Release()
-	if err := c17WaitAll(done, "usage collection overlapping "+strings.Join(sc.Others, "+")); err != nil {
+	if err := c17WaitAll(done, "usage collection overlapping "+strings.Join(sc.Others, "+"), nil); err != nil {
 		return res, err
 	}
 	return res, nil
@@ -188,7 +219,7 @@ func TestVerif_C17_Contention(t *testing.T) {
 				}
 			}(g)
 		}
-		if err := c17WaitAll(done, fmt.Sprintf("%d goroutines running upload rounds and admissions", sc.Goroutines)); err != nil {
+		if err := c17WaitAll(done, fmt.Sprintf("%d goroutines running upload rounds and admissions", sc.Goroutines), &ops); err != nil {
 			return res, err
 		}
 		res.Count = 1
